@@ -246,6 +246,20 @@ def cast_obj(casts):
 @_outer
 def rule_obj(rule, path_as_tuple=False, _memo=None):
     import valida
+    own = False
+    if _memo is None and _STATE["mode"] == "shared" and _STATE["memo"] is None:
+        _memo = _STATE["memo"] = {}  # a rule built on its own: sharing inside the rule (its path and its path arguments)
+        own = True
+        _STATE["applied"] += 1
+    try:
+        return _rule_obj(rule, path_as_tuple, _memo)
+    finally:
+        if own:
+            _STATE["memo"] = None
+
+
+def _rule_obj(rule, path_as_tuple, _memo):
+    import valida
     if path_as_tuple and M.is_concrete(rule["path"]) or False:
         path = tuple(part_obj(p) for p in rule["path"]["parts"])
     elif _memo is not None:
